@@ -670,6 +670,34 @@ def _check_case(case, rep, corr):
                 a, b = collections.Counter(_messages(r2)), collections.Counter(base)
                 _fail(rep, f"messages-change-{kind}", f"reported messages change under {kind}", {**case, "configs": [configs[0]], "variant_text": text},
                       {"only_in_variant": sorted((a - b).elements())[:4], "only_in_original": sorted((b - a).elements())[:4]}, "same messages", "C12 loc_blind")
+    # (iv-b) history independence: validating OTHER documents against the same schema object in between does not change
+    # the answer.  The interleaved documents are built from this one: they define (as directive / type / fragment
+    # definitions) exactly the names this document uses, so anything a rule remembers per schema about names it has seen
+    # would show on the re-run.
+    if not sdl and schema is not None and full_all is not None and not _crashed(full_all):
+        import re as _re
+
+        dnames = list(dict.fromkeys(_re.findall(r"@([_A-Za-z][_0-9A-Za-z]*)", case["text"])))[:6] + ["flag"]
+        tnames = list(dict.fromkeys(_re.findall(r"\bon\s+([_A-Za-z][_0-9A-Za-z]*)", case["text"])))[:4] + ["Zed"]
+        fnames = list(dict.fromkeys(_re.findall(r"\.\.\.\s*([_A-Za-z][_0-9A-Za-z]*)", case["text"])))[:4]
+        locs = "QUERY | MUTATION | SUBSCRIPTION | FIELD | FRAGMENT_DEFINITION | FRAGMENT_SPREAD | INLINE_FRAGMENT | VARIABLE_DEFINITION"
+        others = [
+            "".join(f"directive @{n}(a: Int, if: Boolean) repeatable on {locs}\n" for n in dnames) + case["text"],
+            "".join(f"type {n} {{ a: Int }}\n" for n in tnames if n != "on") + "".join(f"fragment {n} on Query {{ __typename }}\n" for n in fnames if n != "on") + "{ __typename }",
+        ]
+        cfg0 = [rulemap[r] for r in configs[0]]
+        for text in others:
+            try:
+                _validate(schema, _parse(text, case), cfg0, BIG)
+            except Exception:  # noqa: BLE001 - an unparseable interleaved text is simply skipped
+                continue
+        again = _validate(schema, doc, cfg0, BIG)
+        rep.evaluations += 1
+        rep.stats["history_reruns"] = rep.stats.get("history_reruns", 0) + 1
+        if again != full_all:
+            a, b = collections.Counter(again), collections.Counter(full_all)
+            _fail(rep, "history-dependent", "validating other documents against the same schema in between changes the answer", {**case, "configs": [configs[0]], "interleaved": others},
+                  {"only_after": sorted((a - b).elements())[:4], "only_before": sorted((b - a).elements())[:4]}, "the same errors", "C12 (iv) deterministic function of document and schema")
     # (iv) nothing was modified
     if _snapshot(doc) != snap_before:
         _fail(rep, "document-modified", "validation modified the document", case, "snapshot differs", "unchanged", "C12 (iv)")
